@@ -202,6 +202,7 @@ def merge_cov(a, b):
     out = dict(a)
     for k in ("evaluations", "distinct_nontrivial", "histories_completed", "monitored_calls_in_nontrivial_cells", "histories_cut_short_by_other_properties_monitors"):
         out[k] = a.get(k, 0) + b.get(k, 0)
+    out["_opstates"] = set(a.get("_opstates", set())) | set(b.get("_opstates", set()))
     out["configurations"] = a.get("configurations", []) + b.get("configurations", [])
     out["samples"] = (a.get("samples", []) + b.get("samples", []))[:4]
     ob = dict(a.get("observed", {}))
